@@ -718,7 +718,55 @@ def valid_request(G, mx, tx):
     return f"{nT} {nN} {ni[G['start']]} {start} R {rules} S {'|'.join(states)} A {arows} G {grows}"
 
 
-def validate_automata(rep, cases, tight=False, halts=None):
+def search_failing_input(rep, failed, rng, limit=3):
+    """failed: [(label, text, G)] — accepted grammars whose automaton did not pass the validator.  The theorem no
+    longer covers them; look for a concrete token sequence on which the compiled emitted parser answers wrongly
+    (all short strings, many random sentences and their mutations, against the Earley recogniser)."""
+    found = 0
+    for label, text, G in failed[:limit]:
+        if not G["terminals"]:
+            continue
+        o = kv.run_impl("generate", [kv.hexs(text)])[0]
+        if not o.startswith("(ok "):
+            continue
+        emitted = kv.unhexs(o[4:-1])
+        if len(emitted) > 250_000:
+            continue
+        terms = G["terminals"]
+        k = 6
+        while k > 1 and sum(len(terms) ** j for j in range(k + 1)) > 6000:
+            k -= 1
+        strs = gen.all_strings(terms, k)
+        seen = {tuple(x) for x in strs}
+        prod = oracle.productive(G)
+        for _ in range(400):
+            snt = gen.random_sentence(G, rng, prod, max_depth=12)
+            if snt is not None and len(snt) <= 60:
+                for cand in [snt] + [gen.mutate(snt, terms, rng) for _ in range(2)]:
+                    if tuple(cand) not in seen:
+                        seen.add(tuple(cand))
+                        strs.append(cand)
+        idx = {t: i for i, t in enumerate(terms)}
+        tenum = re.search(r"pub enum (\w+) \{", emitted)
+        items_tenum = re.search(r"terminal\s+(\w+)", text)
+        wd = os.path.join(kv.WORK, "search")
+        results, failures, timeouts = corr.run_compiled(wd, [(emitted, items_tenum.group(1), terms, [[idx[x] for x in st] for st in strs])], batch=1, jobs=1)
+        shutil.rmtree(wd, ignore_errors=True)
+        for si, st in enumerate(strs):
+            r = results.get((0, si))
+            if r is None or r == "rustc-timeout":
+                continue
+            got_ok = r.startswith("ok ")
+            want = oracle.recognize(G, st)
+            if got_ok != want:
+                found += 1
+                rep.violation("emitted parser accepts a non-sentence" if got_ok else "emitted parser rejects a sentence of the declared grammar",
+                              {"label": label, "source": text, "tokens": st, "impl": r, "found_by": "search after the validator rejected the implementation's automaton"})
+                break
+    return found
+
+
+def validate_automata(rep, cases, tight=False, halts=None, search_rng=None):
     """cases: [(label, text, G, impl stages line)] for accepted grammars.  Runs the proved-sound validator
     (Proofs/Valid.validB) on the implementation's own machine and table.  Returns number validated.
     With tight=True also Proofs/Tight.tightB (CoreSound + NonEmpty, the extra hypotheses of the C03 theorem).
@@ -747,9 +795,11 @@ def validate_automata(rep, cases, tight=False, halts=None):
         bounds = [int(o[5].rstrip(")")) for _, o in cert if o[3] == "true"]
         halts["max_steps_per_token_potential"] = max(bounds) if bounds else 0
     bad = 0
+    failed = []
     for (label, text, G), o, to in zip(keep, outs, touts):
         if o != "(valid true)":
             bad += 1
+            failed.append((label, text, G))
             why = kv.unhexs(kv.parse_sexp(o)[2]) if o.startswith("(valid false") else o
             rep.violation("the automaton/table built for an accepted grammar violates the local LR validity conditions (Sound/Complete), "
                           "so the emitted parser is not shown to accept exactly L(G): " + why, {"label": label, "source": text}, no_input=True)
@@ -760,6 +810,8 @@ def validate_automata(rep, cases, tight=False, halts=None):
             bad += 1
             rep.violation("the automaton built for an accepted grammar has an item outside the closure of its state's kernel or an empty target state "
                           "(tightB), so the consumed input is not shown to be a viable prefix: " + to, {"label": label, "source": text}, no_input=True)
+    if failed and search_rng is not None:
+        search_failing_input(rep, failed, search_rng)
     return len(keep) - bad
 
 
@@ -932,7 +984,7 @@ def run_C01(rep, tier, rng):
     recs = _driver_common(rep, tier)
     lines = kv.run_impl("stages", corr.stage_requests([r["text"] for r in recs]))
     hstats = {}
-    validated = validate_automata(rep, [(r["label"], r["text"], r["G"], l) for r, l in zip(recs, lines) if l.startswith("(stages")], halts=hstats)
+    validated = validate_automata(rep, [(r["label"], r["text"], r["G"], l) for r, l in zip(recs, lines) if l.startswith("(stages")], halts=hstats, search_rng=rng)
     # the validator and the termination certificate also on the exhaustive small scope (no compilation): every
     # third grammar in the thorough tier, every 150th in the quick tier
     hsmall = {}
